@@ -1,12 +1,15 @@
 '''C05 Hierarchical index: tree and table views agree.'''
 from sfa.report import Ctx
+from sfa.rules import atomic
+from sfa.rules import flowmisc
+from sfa.rules import own
 from sfa.rules import recache
 
 LEVEL_TEXT = (
     'Static decision of the cache-coherence clause of C05: every read of IndexHierarchy._blocks (the lazily cached '
     'per-depth table) in the class and in its external readers, and of ArrayGO._array, sits where the staleness flag '
     'is known False or after the refresher ran, on every path; a violated obligation is a reader that serves the table '
-    'from before an append/extend while the tree has grown. Not decided: HLoc resolution (offset arithmetic, partial '
+    'from before an append/extend while the tree has grown. Also decided: the grow-only mutators of IndexHierarchyGO / IndexLevelGO / ArrayGO update tree, cached length and staleness flag in lock-step and validate before mutating; IndexHierarchy.__init__ keeps a donor level tree only when both sides are static; no dtype= argument is the class np.dtype (TypeBlocks.dtypes is on the path of every multi-row hierarchical extraction). Not decided: HLoc resolution (offset arithmetic, partial '
     'matches, Boolean masks) and the agreement of tree and table values.')
 
 CLAIM = dict(
@@ -19,3 +22,6 @@ CLAIM = dict(
 def run(ctx: Ctx) -> None:
     recache.check(ctx, 'IndexHierarchy', floor_reads=38)
     recache.check(ctx, 'ArrayGO', floor_reads=5)
+    flowmisc.dtype_specifier_lint(ctx)
+    atomic.d_atomic(ctx, only=('index_hierarchy.', 'index_level.', 'array_go.'))
+    own.c_sharing_guards(ctx, only=('IndexHierarchy.__init__',))
